@@ -37,7 +37,8 @@ def build(spec, comps):
                             activation_energy=(V(ea, 30000.0) if ea else None))
         exps.append(e)
         txt.append('(Build_Experiment N %s %d %s %s)' % (lt, ci, pt, '(Some %s)' % ea if ea else 'None'))
-    return pv.Membrane(name='symmem', ideal_experiments=IdealExperiments(experiments=exps)), '(Some [%s])' % '; '.join(txt)
+    from objs import watch
+    return watch(pv.Membrane(name='symmem', ideal_experiments=IdealExperiments(experiments=exps))), '(Some [%s])' % '; '.join(txt)
 
 
 KG = 'kg/(m2*h*kPa)'
